@@ -548,6 +548,12 @@ impl Ctx {
             let len: usize = rest.parse().unwrap();
             return self.rng.bytes(len);
         }
+        if let Some(rest) = spec.strip_prefix("z:") {
+            // z:LEN:K  LEN bytes of cheap, compressible content distinguished by K
+            let (len, k) = rest.split_once(':').unwrap();
+            let (len, k): (usize, usize) = (len.parse().unwrap(), k.parse().unwrap());
+            return (0..len).map(|i| if i % 4096 == 0 { (i / 4096 % 251) as u8 } else { k as u8 }).collect();
+        }
         panic!("bad payload spec {spec}")
     }
 
